@@ -273,6 +273,12 @@ func (c *Ctx) rulesC18() {
 					ast.Inspect(fd.Body, func(n ast.Node) bool {
 						switch x := n.(type) {
 						case *ast.CompositeLit:
+							// []am.HandlerFinal{add, remove}: the handler values in order
+							if t := p.TypesInfo.TypeOf(x); t != nil && strings.HasPrefix(t.String(), "[]") && strings.Contains(t.String(), "HandlerFinal") {
+								for _, el := range x.Elts {
+									fams = append(fams, pipeFamilyOfExpr(p, el, fd))
+								}
+							}
 							if t := p.TypesInfo.TypeOf(x); t != nil && strings.HasSuffix(t.String(), "reflect.StructField") {
 								for _, el := range x.Elts {
 									kv, ok := el.(*ast.KeyValueExpr)
